@@ -44,7 +44,7 @@ func (c15) Info(tier string) fw.Info {
 	return fw.Info{
 		Level: "exploration",
 		Rule: "module graphs (entry `main` + up to 4 modules; every module declares a singleton, an edge function calling the edge functions it imports, and items named f, g, v, T reused across modules with tag-returning bodies `\"a.f(\" + v + \",\" + g() + \")\"`; " +
-			"functions append a mark to their module's private globals; modules may also declare singletons `$K`, `$L` under names shared with other modules: every function of such a module appends its tag to the singleton's log and reads it back, through a singleton extraction parameter or through the expression `$K`; a call may end with the value of the last expression, with `return`, or with a `throw` of the result - directly or from a private helper - that a `try` around the call or only the entry's main catches, marking the result with `!`; edge functions may be handed a private function of another module as a value and call it) are enumerated exhaustively within this bound: " + Bound(tier) + "; plus seeded random graphs with 3-5 modules beyond the bound. " +
+			"functions append a mark to their module's private globals; modules may also declare singletons `$K`, `$L` under names shared with other modules: every function of such a module appends its tag to the singleton's log and reads it back, through a singleton extraction parameter or through the expression `$K`; a call may end with the value of the last expression, with `return`, or with a `throw` of the result - directly or from a private helper - that a `try` around the call or only the entry's main catches, marking the result with `!`; edge functions may be handed a private function of another module as a value and call it, or call the function value that a pub maker function of an imported module returns; such a value is the named function or a function literal calling it) are enumerated exhaustively within this bound: " + Bound(tier) + "; plus seeded random graphs with 3-5 modules beyond the bound. " +
 			"Oracle: a model linker (name -> defining module by the import statements and pub only) predicts per import statement legal / private / missing item / missing module / cyclic and, for accepted graphs, the exact text printed. " +
 			"The analyzer must report an error on every illegal import statement (mentioning the item or module) and none on legal ones; accepted graphs run " + fmt.Sprint(reps(tier)) + " times on the VM (fresh Analyze+Compile each, module map re-inserted in rotating permutations) and once on the interpreter; " +
 			"every run must print the predicted text (a function works on the globals and singletons of its defining module, and so does its caller after the call has ended, whichever way it ended) and load every singleton of every reachable module exactly once before the first output. " +
@@ -496,6 +496,11 @@ func modeHint(g *Graph) string {
 		parts = append(parts, "every edge function is handed the private function k of the calling module as a value and calls it")
 	case "relay":
 		parts = append(parts, "the entry's private function k is handed down through the edge functions as a value, each of them calls it")
+	case "made":
+		parts = append(parts, "every module has a pub maker function `mk_<module>` that returns its private function k as a value; every edge function calls what its own maker and the imported makers return and then goes on reading its own names")
+	}
+	if g.Callback != "" && g.CbForm == "lit" {
+		parts = append(parts, "the function values are function literals `fn() -> str { k() }` (closures): the body of a literal belongs to the module that contains it, whichever module calls it")
 	}
 	if len(parts) == 0 {
 		return ""
@@ -596,6 +601,11 @@ func runGraph(c fw.Case, g *Graph, poison bool) (res fw.Result) {
 	}
 	if g.Callback != "" {
 		v.res.Cover = append(v.res.Cover, "callback:"+g.Callback)
+		if g.CbForm != "" {
+			v.res.Cover = append(v.res.Cover, "cbform:"+g.CbForm, "callback:"+g.Callback+"/"+g.CbForm)
+		} else {
+			v.res.Cover = append(v.res.Cover, "cbform:named")
+		}
 	}
 	detail := map[string]any{"graph": Describe(g), "source": rd.Src}
 	defer func() {
